@@ -11,9 +11,14 @@ A scenario (JSON-able dict):
   files    [[rel, {"lines": [...]} | {"doc": obj} | {"raw": text}], ...]   (creation order)
   dirs     [rel, ...] extra directories
   in       {"kind": single|list|glob, "paths": [rel-or-pattern...], "relative": bool}
-  out      null | {"kind": same|dir|dirnoslash|file|newdir, "path": rel}
+  out      null | {"kind": same|dir|dirnoslash|file|newdir, "path": rel, "relative": bool}
   enc      {"encoding"|"encodingIn"|"encodingOut": name}
   matched  [rel...]   files `in` must match, by construction of the generator
+  links    [[symlink|hardlink|copy, name, target], ...]   created after the files (target relative to root)
+  probe    null | {"path": in spelling (rel), "spec": rel of the file whose content spec applies,
+                   "out": real entry out resolves to (controls)}: the source path is read after every
+                   observable operation and at the fault
+  expect_inplace  bool, by construction: out names the file in names (alias) / another file (control)
   fault    null | {"src": rel, "op": sameFile|openRead|mkTemp|fmt|write|close|replace, "n": k,
                    "kind": raise|kill, "via": inject|missing|bomb|serialise|badsource,
                    "remove_fails": bool}
@@ -116,18 +121,65 @@ def materialise(scn, root, plant=True):
             data = spec['raw'].encode('utf-8')
         with open(p, 'wb') as f:
             f.write(data)
+    for kind, name, target in scn.get('links', []):
+        p, t = os.path.join(root, name), os.path.join(root, target)
+        os.makedirs(os.path.dirname(p), exist_ok=True)
+        if kind == 'symlink':
+            os.symlink(os.path.relpath(t, os.path.dirname(p)), p)
+        elif kind == 'hardlink':
+            os.link(t, p)
+        elif kind == 'copy':
+            shutil.copyfile(t, p)
+        else:
+            raise ValueError(kind)
 
 
 def audit(root):
-    """{rel: hex bytes} for every file under root (recursive), sorted."""
+    """{rel: hex bytes} for every regular file under root (recursive; hard links are separate entries,
+    symlinks are not files: see `listing`), sorted."""
     out = {}
     for dp, dns, fns in os.walk(root):
         for fn in fns:
             p = os.path.join(dp, fn)
+            if os.path.islink(p):
+                continue
             rel = os.path.relpath(p, root)
             with open(p, 'rb') as f:
                 out[rel] = f.read().hex()
     return dict(sorted(out.items()))
+
+
+def listing(root):
+    """Every directory entry under root: rel -> 'D' | 'F' | 'L->target' (symlinks are not followed)."""
+    out = {}
+    for dp, dns, fns in os.walk(root):
+        for n in dns + fns:
+            p = os.path.join(dp, n)
+            rel = os.path.relpath(p, root)
+            out[rel] = 'L->' + os.readlink(p) if os.path.islink(p) else 'D' if os.path.isdir(p) else 'F'
+    return dict(sorted(out.items()))
+
+
+def inode_table(root):
+    """[[rel, k]] for every regular file: k = small id of its inode (hard links share one)."""
+    ids, out = {}, []
+    for dp, dns, fns in sorted(os.walk(root)):
+        for fn in sorted(fns):
+            p = os.path.join(dp, fn)
+            if os.path.islink(p):
+                continue
+            st = os.lstat(p)
+            k = ids.setdefault((st.st_dev, st.st_ino), len(ids) + 1)
+            out.append([os.path.relpath(p, root), k])
+    return sorted(out)
+
+
+def read_hex(path):
+    try:
+        with open(path, 'rb') as f:
+            return f.read().hex()
+    except OSError:
+        return None
 
 
 # --------------------------------------------------------------------------
@@ -165,6 +217,14 @@ class Recorder:
         self.jobs = []
         self.cur = None
         self.fired = False
+        self.probe = None      # absolute path of the source as `in` spells it
+        self.seen = []         # its bytes after every observable operation / at the fault (changes only)
+
+    def snap(self):
+        if self.probe is not None:
+            hx = read_hex(self.probe)
+            if not self.seen or self.seen[-1] != hx:
+                self.seen.append(hx)
 
     def rel(self, p):
         return os.path.relpath(os.path.realpath(os.fspath(p)), self.root)
@@ -184,6 +244,7 @@ class Recorder:
     def hit(self, label, n=0, exc=OSError):
         if self.planned(label, n):
             self.fired = True
+            self.snap()
             if self.fault['kind'] == 'kill':
                 self.die()
             self.events.append(label + '!')
@@ -191,7 +252,8 @@ class Recorder:
 
     def die(self):
         if self.kill_fd is not None:
-            os.write(self.kill_fd, json.dumps({'events': self.events, 'jobs': self.jobs}).encode())
+            os.write(self.kill_fd, json.dumps({'events': self.events, 'jobs': self.jobs,
+                                               'seen': self.seen}).encode())
         os._exit(KILL_EXIT)
 
     def at_fmt(self):
@@ -202,6 +264,7 @@ class Recorder:
 
     def done(self, label, ok=True):
         self.events.append(label if ok else label + '!')
+        self.snap()
 
 
 class OutProxy:
@@ -231,6 +294,7 @@ class OutProxy:
                     rec.die()
                 self._real.__exit__(None, None, None)
                 rec.events.append('close!')
+                rec.snap()
                 raise OSError('injected fault at close')
             self._real.__exit__(None, None, None)
             rec.done('close')
@@ -333,6 +397,7 @@ def instrumented(rec):
             return real_remove(path, *a, **kw)
         if rec.remove_fails:
             rec.events.append('removeTemp!')
+            rec.snap()
             raise OSError('injected fault at removeTemp')
         try:
             r = real_remove(path, *a, **kw)
@@ -372,7 +437,7 @@ def build_context(scn, root, bomb, inert):
     key = STEPS[step][1]
     relative = scn['in'].get('relative')
 
-    def pth(rel):
+    def pth(rel, relative=relative):
         return rel if relative else os.path.join(root, rel)
 
     paths = [pth(p) for p in scn['in']['paths']]
@@ -380,6 +445,9 @@ def build_context(scn, root, bomb, inert):
     out = scn.get('out')
     if out:
         k = out['kind']
+        if 'relative' in out:
+            def pth(rel, relative=out['relative']):    # noqa: F811 - out spelled independently of in
+                return rel if relative else os.path.join(root, rel)
         if k in ('same', 'file'):
             cfg['out'] = pth(out['path'])
         elif k in ('dir', 'newdir'):
@@ -400,6 +468,10 @@ def build_context(scn, root, bomb, inert):
     return ctx
 
 
+def needs_cwd(scn):
+    return bool(scn['in'].get('relative') or (scn.get('out') or {}).get('relative'))
+
+
 def run_step(scn, root, fault=None, inert=False, kill_fd=None):
     """Run the real step once in `root`. Returns (outcome dict, recorder)."""
     from pypyr.context import Context
@@ -409,8 +481,10 @@ def run_step(scn, root, fault=None, inert=False, kill_fd=None):
     bomb = Bomb()
     bomb.rec = None if inert else rec
     ctx = Context(build_context(scn, root, bomb, inert))
+    if scn.get('probe') and not inert:
+        rec.probe = os.path.join(root, scn['probe']['path'])
     cwd = os.getcwd()
-    if scn['in'].get('relative'):
+    if needs_cwd(scn):
         os.chdir(root)
     try:
         # ruamel's emitter prints repr(data) to stdout when stream.write raises: keep it off the check's output
@@ -434,7 +508,8 @@ def run_killed(scn, root, fault):
         try:
             os.close(r)
             outcome, rec = run_step(scn, root, fault, kill_fd=w)
-            os.write(w, json.dumps({'events': rec.events, 'jobs': rec.jobs, 'outcome': outcome}).encode())
+            os.write(w, json.dumps({'events': rec.events, 'jobs': rec.jobs, 'outcome': outcome,
+                                    'seen': rec.seen}).encode())
             code = 0
         except BaseException:
             code = 3
@@ -457,7 +532,7 @@ def run_killed(scn, root, fault):
         outcome = data.get('outcome', {'end': 'ok'})
     else:
         outcome = {'end': 'child-crashed', 'code': code}
-    return outcome, data['events'], data['jobs']
+    return outcome, data['events'], data['jobs'], data.get('seen', [])
 
 
 def glob_order(scn, root):
@@ -482,6 +557,28 @@ def canonical_out(scn, src):
     return os.path.normpath(os.path.join(d, os.path.basename(src)))
 
 
+def out_spelling(scn, src):
+    """The out path of the job for `src` as the code spells it, relative to root (not normalised)."""
+    out = scn.get('out')
+    if not out:
+        return None
+    if out['kind'] in ('same', 'file'):
+        return out['path']
+    return os.path.join(out['path'].rstrip('/') or '.', os.path.basename(src))
+
+
+def link_table(scn, root, order):
+    """What the OS says about the names: spelling -> entry (realpath) for every out spelling, entry -> inode
+    id for every regular file. Input of the model's `Links`."""
+    rroot = os.path.realpath(root)
+    entry = {}
+    for src in order:
+        sp = out_spelling(scn, src)
+        if sp is not None:
+            entry[sp] = os.path.relpath(os.path.realpath(os.path.join(root, sp)), rroot)
+    return {'entry': sorted([k, v] for k, v in entry.items()), 'ino': inode_table(root)}
+
+
 def observe(scn):
     """Reference run (fault-free, inert context) + faulted run on two identical scratch directories.
     Returns a JSON-able record with everything the model and the monitor need."""
@@ -496,17 +593,28 @@ def observe(scn):
         materialise(scn, run_root)
         before = audit(run_root)
         order = glob_order(scn, run_root)
+        links = link_table(scn, run_root, order)
+        names_before = listing(run_root)
+        probe = scn.get('probe')
+        probe_before = read_hex(os.path.join(run_root, probe['path'])) if probe else None
+        src_entry = None
+        if probe:   # the directory entry `in` names: symlinked directories resolved, the last component not
+            pp = os.path.join(run_root, probe['path'])
+            src_entry = os.path.relpath(os.path.join(os.path.realpath(os.path.dirname(pp)), os.path.basename(pp)),
+                                        os.path.realpath(run_root))
         # ---- reference: what a complete, successful rewrite writes
         o, rec = run_step(scn, ref_root, inert=True)
         ref = {'ok': o['end'] == 'ok', 'outcome': o, 'jobs': rec.jobs, 'after': audit(ref_root)}
         # ---- the run under test
         if fault and fault['kind'] == 'kill':
-            outcome, events, jobs = run_killed(scn, run_root, fault)
+            outcome, events, jobs, seen = run_killed(scn, run_root, fault)
         else:
             outcome, rec = run_step(scn, run_root, fault)
-            events, jobs = rec.events, rec.jobs
+            events, jobs, seen = rec.events, rec.jobs, rec.seen
         after = audit(run_root)
         return {'before': before, 'after': after, 'order': order, 'ref': ref, 'outcome': outcome,
-                'events': events, 'jobs': jobs}
+                'events': events, 'jobs': jobs, 'links': links, 'names_before': names_before,
+                'names_after': listing(run_root), 'seen': seen, 'probe_before': probe_before, 'src_entry': src_entry,
+                'probe_after': read_hex(os.path.join(run_root, probe['path'])) if probe else None}
     finally:
         shutil.rmtree(base, ignore_errors=True)
